@@ -248,6 +248,9 @@ fn parse_defaults(e: &Expr) -> Result<DefaultsN, String> {
                 let target = init.strip_suffix("::default()").ok_or("inline defaults do not start from Default")?.to_string();
                 let mut fields = vec![];
                 for s in &st[1..st.len() - 1] {
+                    if toks(s) == ";" || toks(s).is_empty() {
+                        continue; // stray empty statement emitted for an empty field list
+                    }
                     let syn::Stmt::Expr(Expr::Assign(a), _) = s else { return Err("inline default statement is not an assignment".into()) };
                     let lhs = toks(&a.left);
                     let f = lhs.strip_prefix("default_values.").ok_or("assignment target")?.to_string();
